@@ -2,6 +2,7 @@ package main
 
 import (
 	"fmt"
+	"go/types"
 	"os"
 
 	"golang.org/x/tools/go/packages"
@@ -9,6 +10,7 @@ import (
 	"golang.org/x/tools/go/ssa/ssautil"
 )
 
+// ssadump2 <dir> <pkg pattern> <func or method name>: prints the SSA of matching functions (generic bodies included).
 func main() {
 	dir, pat, fn := os.Args[1], os.Args[2], os.Args[3]
 	cfg := &packages.Config{Mode: packages.LoadAllSyntax, Dir: dir, BuildFlags: []string{"-tags=verif"}}
@@ -16,13 +18,12 @@ func main() {
 	if err != nil {
 		panic(err)
 	}
-	prog, spkgs := ssautil.AllPackages(pkgs, ssa.GlobalDebug|ssa.InstantiateGenerics&0)
-	_ = prog
+	prog, spkgs := ssautil.AllPackages(pkgs, ssa.GlobalDebug)
+	prog.Build()
 	for _, p := range spkgs {
 		if p == nil {
 			continue
 		}
-		p.Build()
 		if f := p.Func(fn); f != nil {
 			f.WriteTo(os.Stdout)
 			for _, af := range f.AnonFuncs {
@@ -30,11 +31,21 @@ func main() {
 			}
 		}
 		for _, m := range p.Members {
-			if t, ok := m.(*ssa.Type); ok {
-				ms := prog.MethodSets.MethodSet(t.Type())
-				for i := 0; i < ms.Len(); i++ {
-					if ms.At(i).Obj().Name() == fn {
-						prog.MethodValue(ms.At(i)).WriteTo(os.Stdout)
+			t, ok := m.(*ssa.Type)
+			if !ok {
+				continue
+			}
+			named, ok := t.Type().(*types.Named)
+			if !ok {
+				continue
+			}
+			for i := 0; i < named.NumMethods(); i++ {
+				if named.Method(i).Name() == fn {
+					if f := prog.FuncValue(named.Method(i)); f != nil {
+						f.WriteTo(os.Stdout)
+						for _, af := range f.AnonFuncs {
+							af.WriteTo(os.Stdout)
+						}
 					}
 				}
 			}
